@@ -22,9 +22,12 @@ use crate::rng::Rng;
 use crate::wire::*;
 
 /// Injective numbering of the program's frames and of the memory regions its instructions mention.
+/// Frame keys are computed from the frame's fields (name, qubits; placeholders numbered by first occurrence
+/// through the shared AST encoder), NOT with the implementation's `Eq`/`Hash`/`Display` for frame identifiers.
 pub struct Numbering {
     pub regions: Vec<String>,
     pub frames: Vec<String>,
+    enc: std::cell::RefCell<crate::ast::Enc>,
 }
 
 fn frame_key(f: &FrameIdentifier) -> String {
@@ -35,8 +38,11 @@ impl Numbering {
     pub fn region(&self, name: &str) -> u64 {
         self.regions.iter().position(|r| r == name).expect("region numbered") as u64
     }
+    fn key(&self, f: &FrameIdentifier) -> String {
+        self.enc.borrow_mut().frame(f).to_string()
+    }
     pub fn frame(&self, f: &FrameIdentifier) -> u64 {
-        let k = frame_key(f);
+        let k = self.key(f);
         self.frames.iter().position(|r| *r == k).expect("frame numbered") as u64
     }
 }
@@ -142,10 +148,13 @@ pub fn numbering_for<H: InstructionHandler>(
             visit(&t);
         }
     }
-    let mut frames: Vec<String> = program.frames.get_keys().into_iter().map(frame_key).collect();
+    let mut numbering =
+        Numbering { regions: regions.into_iter().collect(), frames: vec![], enc: Default::default() };
+    let mut frames: Vec<String> = program.frames.get_keys().into_iter().map(|f| numbering.key(f)).collect();
     frames.sort();
     frames.dedup();
-    Numbering { regions: regions.into_iter().collect(), frames }
+    numbering.frames = frames;
+    numbering
 }
 
 pub fn project_block<H: InstructionHandler>(
@@ -210,16 +219,68 @@ pub fn error_variant(v: ScheduleErrorVariant) -> &'static str {
     }
 }
 
+/// Format an error every way a caller can (a panic in there becomes `(crash …)` under `catch_unwind`).
+pub fn format_error<E: std::error::Error>(e: &E) {
+    let _ = e.to_string();
+    let _ = format!("{e:#}");
+    let _ = format!("{e:?}");
+    let mut src = e.source();
+    while let Some(inner) = src {
+        let _ = inner.to_string();
+        src = inner.source();
+    }
+}
+
 /// The real `ScheduledProgram::from_program`: `(ok graph…)` or `(err variant node)`; the node code of an
 /// error is relative to the block in which it arose (found by re-building the blocks one by one).
+/// Sibling entry points are driven too and must agree with it: the consuming `into_basic_blocks`, the
+/// per-block `ScheduledBasicBlock::build`, and the `ScheduledBasicBlockOwned` round trip; a difference is
+/// reported as `(sibling-mismatch which)` (which the model never produces).
 pub fn run_from_program<H: InstructionHandler>(program: &Program, handler: &H) -> Sexp {
     match ScheduledProgram::from_program(program, handler) {
-        Ok(sp) => tagged("ok", sp.basic_blocks().iter().map(encode_graph).collect()),
+        Ok(sp) => {
+            let direct: Vec<Sexp> = sp.basic_blocks().iter().map(encode_graph).collect();
+            // accessors consistent with the underlying block
+            for b in sp.basic_blocks() {
+                if b.len() != b.instructions().len()
+                    || b.is_empty() != b.instructions().is_empty()
+                    || b.get_instruction(b.len()).is_some()
+                    || (0..b.len()).any(|i| b.get_instruction(i) != b.instructions().get(i).copied())
+                {
+                    return tagged("sibling-mismatch", vec![atom("accessors")]);
+                }
+            }
+            // per-block build
+            let per_block: Result<Vec<Sexp>, _> = ControlFlowGraph::from(program)
+                .into_blocks()
+                .into_iter()
+                .map(|b| ScheduledBasicBlock::build(b, program, handler).map(|sb| encode_graph(&sb)))
+                .collect();
+            match per_block {
+                Ok(v) if v == direct => {}
+                _ => return tagged("sibling-mismatch", vec![atom("build")]),
+            }
+            // owned round trip
+            let owned: Vec<quil_rs::program::scheduling::ScheduledBasicBlockOwned> =
+                sp.basic_blocks().iter().cloned().map(Into::into).collect();
+            let back: Vec<Sexp> = owned.iter().map(|o| encode_graph(&ScheduledBasicBlock::from(o))).collect();
+            if back != direct {
+                return tagged("sibling-mismatch", vec![atom("owned")]);
+            }
+            // consuming variant
+            let consumed: Vec<Sexp> = sp.into_basic_blocks().iter().map(encode_graph).collect();
+            if consumed != direct {
+                return tagged("sibling-mismatch", vec![atom("into_basic_blocks")]);
+            }
+            tagged("ok", direct)
+        }
         Err(e) => {
+            format_error(&e);
             let mut n = 0usize;
             for b in ControlFlowGraph::from(program).into_blocks() {
                 let len = b.instructions().len();
-                if ScheduledBasicBlock::build(b, program, handler).is_err() {
+                if let Err(e2) = ScheduledBasicBlock::build(b, program, handler) {
+                    format_error(&e2);
                     n = len;
                     break;
                 }
@@ -549,21 +610,120 @@ pub fn real_answer(program: &Program, externs: &ExternSignatureMap, instruction:
 /// `(instruction-list-AST, sigs, real blocks/answers)`.
 pub fn ast_parts(instructions: &[Instruction]) -> (Program, Vec<Sexp>) {
     let program = Program::from_instructions(instructions.to_vec());
+    let parts = ast_parts_of(&program, instructions);
+    (program, parts)
+}
+
+/// The same for a program object that was built from `instructions` by some route of `add_instruction` calls
+/// (e.g. in several stages, with scheduling in between: `used_qubits` is maintained incrementally).
+pub fn ast_parts_of(program: &Program, instructions: &[Instruction]) -> Vec<Sexp> {
     let externs = ExternSignatureMap::try_from(program.extern_pragma_map.clone()).unwrap_or_default();
-    let blocks = ControlFlowGraph::from(&program).into_blocks();
+    let blocks = ControlFlowGraph::from(program).into_blocks();
     let real = blocks
         .iter()
         .map(|b| {
-            let is = b.instructions().iter().map(|i| real_answer(&program, &externs, i)).collect();
+            let is = b.instructions().iter().map(|i| real_answer(program, &externs, i)).collect();
             let t = match b.terminator().clone().into_instruction() {
-                Some(t) => real_answer(&program, &externs, &t),
+                Some(t) => real_answer(program, &externs, &t),
                 None => atom("none"),
             };
             tagged("b", vec![list(is), t])
         })
         .collect();
-    let parts = vec![crate::ast::instructions_to_sexp(instructions), sigs_sexp(&program), list(real)];
-    (program, parts)
+    vec![crate::ast::instructions_to_sexp(instructions), sigs_sexp(program), list(real)]
+}
+
+/// SEQUENCE of calls on one `Program` object: add the first `cut` instructions, schedule, add the rest, schedule
+/// again (and once more, unchanged). Each observation is an ast case over the instructions added so far.
+pub fn staged_ast_cases(ctx: &mut crate::Ctx, instructions: &[Instruction], cut: usize) {
+    let cut = cut.min(instructions.len());
+    let mut program = Program::new();
+    program.add_instructions(instructions[..cut].to_vec());
+    let parts = ast_parts_of(&program, &instructions[..cut]);
+    ctx.case(tagged("ast", parts), || run_from_program(&program, &DefaultHandler));
+    program.add_instructions(instructions[cut..].to_vec());
+    for _ in 0..2 {
+        let parts = ast_parts_of(&program, instructions);
+        ctx.case(tagged("ast", parts), || run_from_program(&program, &DefaultHandler));
+    }
+}
+
+/// Special shapes: a long block (> 64 instructions), an instruction touching > 32 frames, > 32 regions.
+pub fn large_programs(rng: &mut Rng) -> Vec<String> {
+    let mut out = Vec::new();
+    // 40 single-qubit frames + a 40-qubit frame; FENCE / RESET / blocking pulses over them
+    let mut s = String::new();
+    for q in 0..40 {
+        s.push_str(&format!("DEFFRAME {q} \"x\":\n    SAMPLE-RATE: 1.0\n"));
+    }
+    let all: Vec<String> = (0..40).map(|q| q.to_string()).collect();
+    s.push_str(&format!("DEFFRAME {} \"w\":\n    SAMPLE-RATE: 1.0\n", all.join(" ")));
+    s.push_str("FENCE\nRESET\nPULSE 7 \"x\" flat(duration: 1.0, iq: 1.0)\nFENCE 1 2 3\n");
+    s.push_str(&format!("PULSE {} \"w\" flat(duration: 1.0, iq: 1.0)\nRESET 39\nFENCE\n", all.join(" ")));
+    out.push(s);
+    // 40 regions read by one instruction's expression, then written one by one
+    let mut s = String::from("DEFFRAME 0 \"x\":\n    SAMPLE-RATE: 1.0\n");
+    let sum: Vec<String> = (0..40).map(|r| format!("r{r}[0]")).collect();
+    s.push_str(&format!("SET-SCALE 0 \"x\" {}\n", sum.join(" + ")));
+    for r in 0..40 {
+        s.push_str(&format!("MOVE r{r}[0] 1\n"));
+    }
+    s.push_str(&format!("SHIFT-PHASE 0 \"x\" {}\n", sum.join(" * ")));
+    out.push(s);
+    // a block of 100 random instructions
+    let cfg = ProgCfg { nframes: 5, nreg: 3, max_len: 100, rf_pct: 50, cf_pct: 0, bad_permille: 0 };
+    for _ in 0..3 {
+        let mut t = program_text(rng, &cfg);
+        while t.lines().count() < 80 {
+            t.push_str(&rf_line(rng, 5, 3));
+            t.push('\n');
+            t.push_str(&classical_line(rng, 3));
+            t.push('\n');
+        }
+        out.push(t);
+    }
+    out
+}
+
+/// API-only shapes: qubit PLACEHOLDERS (compared by address) in frames, pulses, RESET, FENCE, DELAY, and target
+/// placeholders in labels / jumps. Only the projected streams can carry them.
+pub fn placeholder_programs() -> Vec<Program> {
+    use quil_rs::instruction::{
+        Fence, FrameAttributes, FrameDefinition, Jump, Label, Pulse, Qubit, QubitPlaceholder, Reset, Target,
+        TargetPlaceholder, WaveformInvocation,
+    };
+    let mut out = Vec::new();
+    for shared in [false, true] {
+        let p0 = Qubit::Placeholder(QubitPlaceholder::default());
+        let p1 = if shared { p0.clone() } else { Qubit::Placeholder(QubitPlaceholder::default()) };
+        let frame = |q: &Qubit, n: &str| FrameIdentifier { name: n.to_string(), qubits: vec![q.clone()] };
+        let pulse = |q: &Qubit, n: &str, blocking: bool| {
+            Instruction::Pulse(Pulse {
+                blocking,
+                frame: frame(q, n),
+                waveform: WaveformInvocation { name: "flat".to_string(), parameters: Default::default() },
+            })
+        };
+        let t = Target::Placeholder(TargetPlaceholder::new("l".to_string()));
+        let body = vec![
+            Instruction::FrameDefinition(FrameDefinition { identifier: frame(&p0, "x"), attributes: FrameAttributes::new() }),
+            Instruction::FrameDefinition(FrameDefinition { identifier: frame(&p1, "y"), attributes: FrameAttributes::new() }),
+            Instruction::FrameDefinition(FrameDefinition {
+                identifier: FrameIdentifier { name: "z".to_string(), qubits: vec![p0.clone(), Qubit::Fixed(1)] },
+                attributes: FrameAttributes::new(),
+            }),
+            pulse(&p0, "x", true),
+            pulse(&p1, "y", false),
+            Instruction::Reset(Reset { qubit: Some(p1.clone()) }),
+            Instruction::Fence(Fence { qubits: vec![p0.clone()] }),
+            Instruction::Jump(Jump { target: t.clone() }),
+            Instruction::Label(Label { target: t }),
+            Instruction::Reset(Reset { qubit: None }),
+            pulse(&p1, "x", true),
+        ];
+        out.push(Program::from_instructions(body));
+    }
+    out
 }
 
 /// The instruction list a program text parses to (definitions first, as `to_instructions` lists them).
